@@ -245,6 +245,7 @@ impl ChainM {
                 ok_str(v)
             }
             Probe::OwnGet { key } => ok_str(self.st.contracts[me].storage.get(key.as_slice()).map(|v| hexs(v))),
+            Probe::RawQuery { .. } => "unmodelled".into(),
         }
     }
 
